@@ -16,7 +16,24 @@ Open Scope Z_scope.
 Ltac deceq_unfold_arith :=
   unfold wrap8, wrap16, wrap32, wrap64, uwrap8, uwrap16, uwrap32, uwrap64 in *.
 
-(* split on integer comparisons first (they become linear facts), then on whatever else is scrutinised *)
+(* split on the leftmost atom of a boolean expression: integer comparisons become linear facts,
+   anything else (a boolean parameter, an opaque call) is destructed, which replaces every occurrence *)
+Ltac deceq_atom c :=
+  lazymatch c with
+  | negb ?x => deceq_atom x
+  | andb ?x _ => deceq_atom x
+  | orb ?x _ => deceq_atom x
+  | (if ?x then _ else _) => deceq_atom x
+  | Z.eqb ?a ?b => destruct (Z.eqb_spec a b)
+  | Z.ltb ?a ?b => destruct (Z.ltb_spec a b)
+  | Z.leb ?a ?b => destruct (Z.leb_spec a b)
+  | Z.gtb ?a ?b => rewrite (Z.gtb_ltb a b)
+  | Z.geb ?a ?b => rewrite (Z.geb_leb a b)
+  | true => fail
+  | false => fail
+  | _ => destruct c eqn:?
+  end.
+
 Ltac deceq_split_step :=
   match goal with
   | |- context [Z.eqb ?a ?b] => destruct (Z.eqb_spec a b)
@@ -24,8 +41,11 @@ Ltac deceq_split_step :=
   | |- context [Z.leb ?a ?b] => destruct (Z.leb_spec a b)
   | |- context [Z.gtb ?a ?b] => rewrite (Z.gtb_ltb a b)
   | |- context [Z.geb ?a ?b] => rewrite (Z.geb_leb a b)
-  | |- context [if ?c then _ else _] => destruct c eqn:?
+  | |- context [if ?c then _ else _] => deceq_atom c
   | |- context [match ?x with _ => _ end] => destruct x eqn:?
+  | |- context [andb ?x _] => deceq_atom x
+  | |- context [orb ?x _] => deceq_atom x
+  | |- context [negb ?x] => deceq_atom x
   end.
 
 Ltac deceq_leaf :=
